@@ -7,6 +7,7 @@ import (
 	"os"
 	"sort"
 	"strings"
+	"time"
 
 	"verif.local/simrt"
 )
@@ -78,6 +79,9 @@ func (c *Ctx) Sim(tweak func(*simrt.Config), root func()) *simrt.Result {
 	cfg := simrt.Config{Seed: simrt.Mix(c.Seed, uint64(1000+c.nsim)), Strategy: -1, KeepEvents: c.keep}
 	if tweak != nil {
 		tweak(&cfg)
+	}
+	if cfg.Watchdog == 0 {
+		cfg.Watchdog = 60 * time.Second
 	}
 	if c.replay {
 		cfg.Replay = []uint32{}
